@@ -156,4 +156,10 @@ var c05 = gen.Register(&gen.Check[caseC05]{
 	},
 })
 
-func TestC05Equal(t *testing.T) { c05.Execute(t) }
+func TestC05Equal(t *testing.T) {
+	if !pt.Calibrated() {
+		// API-only build (or a tree whose coordinates are not homogeneous projective): the white-box classes cannot occur
+		c05.Required = without(c05.Required, "aimed-cross-product")
+	}
+	c05.Execute(t)
+}
